@@ -37,6 +37,8 @@ let any = ZA.of_int (-8)
 
 let rest = ZA.of_int (-10)
 let nonzero = ZA.of_int (-11)
+(* the harness records -777 when the implementation panicked: never a rejection *)
+let panicked = ZA.of_int (-777)
 
 (* -(2^62)-13: what remains is A ++ B, A strictly increasing and inside the set after the marker, B a permutation of A *)
 let half_ok (restl : ZA.t list) (set : ZA.t list) : bool =
@@ -60,9 +62,9 @@ let rec spec_match' impl sp =
 let spec_match impl sp =
   match sp with
   | [y] when ZA.equal y any -> true
-  | [y] when ZA.equal y nonzero -> (match impl with [c] -> not (ZA.equal c ZA.zero) | _ -> false)
+  | [y] when ZA.equal y nonzero -> (match impl with [c] -> not (ZA.equal c ZA.zero) && not (ZA.equal c panicked) | _ -> false)
   | y :: sp' when ZA.equal y (ZA.of_int (-12)) ->
-    (match impl with [c] -> not (ZA.equal c ZA.zero) | _ -> spec_match' impl sp')
+    (match impl with [c] -> not (ZA.equal c ZA.zero) && not (ZA.equal c panicked) | _ -> spec_match' impl sp')
   | _ -> spec_match' impl sp
 
 let () =
